@@ -36,11 +36,14 @@ class Runner(object):
             self.g.close()
         g = self.g = gfx.GSess(self.adapter)
         g.ex('KEY OFF')
-        for line in ('10 ON ERROR GOTO 90', '30 ON ERROR GOTO 0:END', '90 E%=ERR:RESUME 30', '20 REM'):
+        # line 15 = set-up of the statement (arrays: storing a program line clears all variables), errors there are skipped;
+        # line 20 = the statement under observation, its error code goes to E%
+        for line in ('10 ON ERROR GOTO 95', '15 REM', '17 ON ERROR GOTO 90', '20 REM', '30 ON ERROR GOTO 0:END',
+                     '90 E%=ERR:RESUME 30', '95 RESUME 17'):
             r = g.ex(line)
             if r[0] != 'ok':
                 raise core.MachineryError('cannot store trap program: %r' % (r,))
-        g.ex('DIM A%(1200)')
+        self.setup_line = 'REM'
         self.reset = True
         self.lastobs = self.modeobs()
         self.snap = g.pages()
@@ -59,10 +62,15 @@ class Runner(object):
         self.dims = (self.g.W, self.g.H)
         return r
 
-    def do(self, a, stmt):
+    def do(self, a, stmt, setup='REM'):
         g = self.g
         e = dict(a)
         e['stmt'] = stmt
+        if setup != self.setup_line:
+            g.ex('15 ' + setup)
+            self.setup_line = setup
+        if setup != 'REM':
+            e['setup'] = setup
         if self.reset:
             e['reset'] = True
             e['pre'] = self.modeobs()
@@ -91,7 +99,16 @@ class Runner(object):
             self.fresh()
             return e
         g._refresh()
-        cur = g.pages()
+        try:
+            cur = g.pages()
+        except Exception as ex:  # noqa   (e.g. pixel rows of unequal length after a clipped sprite write)
+            e['kind'], e['ok'] = 'internal', False
+            e['detail'] = 'pixel buffer unreadable after the statement: %s: %s' % (type(ex).__name__, ex)
+            e['obs'] = e.get('pre') or self.lastobs
+            e['ch'] = []
+            self.events.append(e)
+            self.fresh()
+            return e
         obs = self.modeobs()
         if a['op'] == 'screen' or len(cur) != len(self.snap) or (g.W, g.H) != self.dims:
             ch = []
@@ -267,7 +284,6 @@ class Gen(object):
     def __init__(self, ctx, ru, modes):
         self.ctx, self.ru, self.rng, self.modes = ctx, ru, ctx.rng, modes
         self.forget()
-        self.have_sprite = False
 
     def forget(self):
         self.view = None      # (x0, y0, x1, y1, abs)
@@ -382,23 +398,28 @@ class Gen(object):
             return 'paint', s
         if k < 0.86:
             return 'draw', 'DRAW "%s"' % self.gml()
-        # PUT: make sure a sprite exists
-        if not self.have_sprite or rng.random() < 0.15:
-            x0, y0, x1, y1 = self.vrect()
-            ox, oy = (0, 0) if (self.view is None or self.view[4]) else (x0, y0)
-            w = rng.randint(1, max(1, min(40, x1 - x0)))
-            h = rng.randint(1, max(1, min(30, y1 - y0)))
+        # PUT: the sprite array is built in the set-up line of the same program run (line edits clear variables):
+        # either GOT from the screen inside the viewport, or a synthetic size record + random words (e.g. a sprite of another mode)
+        x0, y0, x1, y1 = self.vrect()
+        ox, oy = (0, 0) if (self.view is None or self.view[4]) else (x0, y0)
+        w = rng.randint(1, max(1, min(40, x1 - x0)))
+        h = rng.randint(1, max(1, min(30, y1 - y0)))
+        if rng.random() < 0.75 and not self.win:
             sx = rng.randint(x0, max(x0, x1 - 2 * w)) - ox
             sy = rng.randint(y0, max(y0, y1 - h)) - oy
-            if self.win:
-                r = self.ru.raw('WINDOW')
-                self.win = None
-                self.ru.events.append(dict(op='windowoff', stmt='WINDOW', ok=r[0] == 'ok', code=0 if r[0] == 'ok' else r[1],
-                                           kind='ok' if r[0] == 'ok' else 'err', ch=[], obs=self.ru.modeobs()))
-            r = self.ru.raw('GET (%d,%d)-(%d,%d),A%%' % (sx, sy, sx + w - 1, sy + h - 1))
-            self.have_sprite = self.have_sprite or r[0] == 'ok'
+            setup = 'DIM A%%(1200):GET (%d,%d)-(%d,%d),A%%' % (sx, sy, sx + w - 1, sy + h - 1)
+        else:
+            # size record small enough for every sprite layout of every mode (<= 64 x 20 in the widest reading)
+            setup = 'DIM A%%(1200):A%%(0)=%d:A%%(1)=%d:FOR I=2 TO 400:A%%(I)=%d+I*%d:NEXT' % (
+                rng.randint(1, 64), rng.randint(1, 20), rng.randint(-32768, 0), rng.randint(0, 80))
         verb = rng.choice(['', ',PSET', ',PRESET', ',AND', ',OR', ',XOR'])
-        return 'put', 'PUT (%s),A%%%s' % (self.pt(), verb)
+        if rng.random() < 0.75 and not self.win:
+            # around the positions where the sprite just fits / just does not fit
+            fx = lambda lo, hi, n: rng.choice([rng.randint(lo, max(lo, hi - n + 1))] * 4 + [hi - n + 1] * 3 + [hi - n + 2, lo, lo, lo - 1, hi])
+            where = '%d,%d' % (fx(x0, x1, w) - ox, fx(y0, y1, h) - oy)
+        else:
+            where = self.pt()
+        return 'put', 'PUT (%s),A%%%s' % (where, verb), setup
 
     def view_stmt(self):
         rng, g = self.rng, self.ru.g
@@ -426,8 +447,8 @@ class Gen(object):
                 return ru.do(a, s)
             if k < 0.40:
                 return ru.do({'op': 'cls'}, 'CLS')
-            op, s = self.drawing()
-            return ru.do({'op': op}, s)
+            d = self.drawing()
+            return ru.do({'op': d[0]}, d[1], *d[2:])
         if k < 0.03:
             return self.screen_stmt()
         if k < 0.11:
@@ -455,8 +476,8 @@ class Gen(object):
             s = 'LINE (-9000,-9000)-(9000,9000),%d,BF'
             ru.do({'op': 'boxf'}, s % c)
             return ru.do({'op': 'probe'}, s % ((c + 1) % g.nattr))
-        op, s = self.drawing()
-        return ru.do({'op': op}, s)
+        d = self.drawing()
+        return ru.do({'op': d[0]}, d[1], *d[2:])
 
     def screen_stmt(self, nr=None):
         rng, ru = self.rng, self.ru
@@ -480,7 +501,6 @@ class Gen(object):
         e = ru.do({'op': 'screen'}, 'SCREEN %s%s' % ('' if nr is None else nr, tail))
         if e['kind'] == 'internal' or e['obs']['mode'] != getattr(self, 'lastmode', None):
             self.forget()
-            self.have_sprite = self.have_sprite and e['kind'] != 'internal'
         self.lastmode = e['obs']['mode']
         return e
 
